@@ -27,6 +27,7 @@ import (
 	componentdns "github.com/daeuniverse/dae/component/dns"
 	"github.com/daeuniverse/dae/component/outbound/dialer"
 	"github.com/daeuniverse/dae/config"
+	"github.com/daeuniverse/dae/pkg/config_parser"
 	vk "github.com/daeuniverse/dae/verifkit"
 	dnsmessage "github.com/miekg/dns"
 	"github.com/sirupsen/logrus"
@@ -107,6 +108,9 @@ type c09Topology struct {
 	// optimistic cache on (dae's default configuration; the other layers run with it off): an expired
 	// entry inside the stale window is served while a background refresh goes upstream
 	optimistic bool
+	// names (fully qualified, lower case) that a request routing rule `qname(full: ...) -> reject`
+	// answers with dae's own empty reply
+	reject []string
 }
 
 // c09NewController builds a DnsController through the production constructor
@@ -116,6 +120,12 @@ func (e *c09Env) c09NewController(tp c09Topology, lifecycle context.Context) (*D
 		Request:  config.DnsRequestRouting{Fallback: "asis"},
 		Response: config.DnsResponseRouting{Fallback: "accept"},
 	}}
+	for _, n := range tp.reject {
+		cfg.Routing.Request.Rules = append(cfg.Routing.Request.Rules, &config_parser.RoutingRule{
+			AndFunctions: []*config_parser.Function{{Name: "qname", Params: []*config_parser.Param{{Key: "full", Val: strings.TrimSuffix(n, ".")}}}},
+			Outbound:     config_parser.Function{Name: "reject"},
+		})
+	}
 	if tp.scheme != "asis" {
 		cfg.Upstream = []config.KeyableString{config.KeyableString("u1:" + tp.scheme + "://" + tp.upstream.String())}
 		cfg.Routing.Request.Fallback = "u1"
@@ -482,7 +492,7 @@ func (e *c09Env) c09RunRound(r *rand.Rand, rd *c09Round, ctrl *DnsController) {
 				m.Count("reply_without_qr_bit", 1)
 			}
 			cc := c
-			c09JudgeMsg(m, where, c.ID, c.Q, rp, true, func() any { return rd.witness(map[string]any{"client": cc}) })
+			c09JudgeClientMsg(m, where, c.ID, c.Q, rp, func() any { return rd.witness(map[string]any{"client": cc}) })
 		}
 		if c.Err == "" && len(c.replies) == 0 {
 			if c.Path == "udp" {
